@@ -196,6 +196,8 @@ Incons(S, t) ==
     \* full subscribers are the live grpXXX rows; a cached channel reader has a live chnXXX row
     \cup If(\A u \in Users : (c.per[u].in /\ ~c.per[u].deleted /\ ~c.per[u].ischan) <=> S.subs[t][u].st = "live", "SubscribersStored")
     \cup If(\A u \in Users : c.per[u].in /\ c.per[u].ischan => S.csubs[t][u].st = "live", "ChannelReadersStored")
+    \cup If(\A u \in Users : c.per[u].in /\ c.per[u].ischan /\ S.csubs[t][u].st = "live" =>
+               c.per[u].want = S.csubs[t][u].want /\ c.per[u].given = S.csubs[t][u].given, "ChannelReaderPermissionsStored")
     \cup If(\A u \in Users : c.per[u].in /\ S.subs[t][u].st = "live" => c.per[u].want = S.subs[t][u].want /\ c.per[u].given = S.subs[t][u].given, "PermissionsStored")
     \cup If(\A u \in Users : c.per[u].in /\ S.subs[t][u].st = "live" /\ "R" \in Eff(c.per[u]) =>
                c.per[u].read = S.subs[t][u].read /\ c.per[u].recv = S.subs[t][u].recv, "MarksStored")
@@ -332,6 +334,24 @@ M_C05(pre, a, obs, post) ==
                  \cup If(w.m = M(p1.want) /\ g.m = M(p1.given), "FollowerOfNoticesMatchesTopic")
     : ff \in obs.acs }
 
+\* ------------------------------------------------------------------ C10 (counter clause) and C14 (symmetry clause) on the projected state
+\* (all sessions of the topic-level walks are foreground sessions)
+OnlineOk(S) ==
+  UNION { LET c == S.cache[t] IN
+          IF ~c.loaded THEN {} ELSE
+          If(\A u \in Users : c.per[u].in => c.per[u].online >= 0, "OnlineCountNeverNegative")
+          \cup If(\A u \in Users : c.per[u].in /\ ~c.per[u].deleted => c.per[u].online = Cardinality({x \in AttOf(c) : x.u = u}), "OnlineCountEqualsAttachedSessions")
+          : t \in Topics }
+M_C10(pre, a, obs, post) == OnlineOk(post) \ OnlineOk(pre)
+
+Symmetric(S) ==
+  If(\A s \in Sessions : \A t \in Topics : (S.sess[s].live /\ t \in M(S.sess[s].subs)) <=> (S.cache[t].loaded /\ s \in AttSess(S.cache[t])),
+     "SessionListsTopicIffTopicListsSession")
+  \cup If(\A s \in Sessions : ~S.sess[s].live => \A t \in Topics : ~(S.cache[t].loaded /\ s \in AttSess(S.cache[t])), "TerminatedSessionDetachedEverywhere")
+M_C14(pre, a, obs, post) ==
+  (Symmetric(post) \ Symmetric(pre))
+  \cup (IF IsReq(a) /\ a.a \in {"Sub", "Leave", "DelTopic", "NewGrp"} THEN If(obs.nack >= 1, "SubscribeLeaveDeleteAnswered") ELSE {})
+
 Monitors(p, pre, a, obs, post) ==
   CASE p = "C01" -> M_C01(pre, a, obs, post)
     [] p = "C02" -> M_C02(pre, a, obs, post)
@@ -342,6 +362,8 @@ Monitors(p, pre, a, obs, post) ==
     [] p = "C07" -> M_C07(pre, a, obs, post) \cup M_C07_Special(a, obs)
     [] p = "C08" -> M_C08(pre, a, obs, post)
     [] p = "C09" -> M_C09(pre, a, obs, post)
+    [] p = "C10" -> M_C10(pre, a, obs, post)
+    [] p = "C14" -> M_C14(pre, a, obs, post)
     [] OTHER -> {}
 
 AllProps == {"C01", "C02", "C03", "C04", "C06", "C07", "C08", "C09"}
